@@ -403,6 +403,7 @@ def run(tier, replay=None):
     run_identifier_enumeration(chk, F)
     run_coefficients_reduced(chk, F)
     run_unset_characteristic(chk)
+    run_removal_undo(chk, F)
     chk.assumptions += ['clang 14 parser; template patterns', 'U is stored transposed for Z2: a column addition on R '
                         'is mirrored by add_to with exchanged indices or by one pushed entry']
     return chk
@@ -931,6 +932,61 @@ def run_unset_characteristic(chk, min_count=5):
                    'the test has one outcome' % (ir.show(x)[:90], u),
                    key='E4|Matrix::%s|unset-characteristic' % f['name'])
     chk.expect_count('E4-unset-characteristic', 'tests of the operators\' characteristic in Matrix', n, min_count)
+
+
+# ------------------------------------------------------------------ E7 / E2n removal undoes the pairing state
+def run_removal_undo(chk, F):
+    """E7-remove-arms: Chain_matrix::_remove_last has one arm per column container; both unpair the partner of the removed
+    column (`unassign_paired_chain` on it) - the survivor is an essential cycle again; an arm that forgets leaves it
+    flagged as paired with a dangling partner, and the next boundary reduced onto it is filed as a new essential class.
+    E2n-bar-entry: RU_pairing::_remove_last gives the dictionary entry of the removed position back on every path that
+    found one (`indexToBar_.erase`): _add_bar / _update_barcode use try_emplace, a stale entry makes the next cell at
+    that position write its death into the wrong bar."""
+    fs = [f for f in F.functions if f.get('clsname') == 'Chain_matrix' and f['name'] == '_remove_last' and
+          f.get('inst') in (0, 2) and f.get('body') is not None]
+    if not fs:
+        raise AnalysisBroken('C05: Chain_matrix::_remove_last not found')
+    f = fs[0]
+    arms = [x for x in ir.walk(f['body']) if x.get('k') == 'IfStmt' and x.get('constexpr') and
+            'has_map_column_container' in ir.show(x.get('cond')) and x.get('else') is not None and
+            (ir.contains(x.get('then'), lambda y: ir.is_call(y) and ir.call_name(y) == 'unassign_paired_chain') or
+             ir.contains(x.get('else'), lambda y: ir.is_call(y) and ir.call_name(y) == 'unassign_paired_chain'))]
+    if not arms:
+        raise AnalysisBroken('C05: the container arms of Chain_matrix::_remove_last were not found')
+    for a in arms:
+        k1 = sum(1 for y in ir.walk(a.get('then')) if ir.is_call(y) and ir.call_name(y) == 'unassign_paired_chain')
+        k2 = sum(1 for y in ir.walk(a.get('else')) if ir.is_call(y) and ir.call_name(y) == 'unassign_paired_chain')
+        chk.ob('E7-remove-arms', 'Chain_matrix::_remove_last: the map arm and the vector arm both unpair the partner of '
+               'the removed column', '%s:%s' % (rel(f['file']), a.get('l')), k1 == k2 and k1 >= 1,
+               '' if k1 == k2 and k1 >= 1 else 'unassign_paired_chain is called %d time(s) in the map arm and %d in the '
+               'vector arm: in one container configuration the surviving cycle stays flagged as paired' % (k1, k2),
+               key='E7|Chain_matrix::_remove_last|unpair-arms')
+    fs = [f for f in F.functions if f.get('clsname') == 'RU_pairing' and f['name'] == '_remove_last' and
+          f.get('inst') in (0, 2) and f.get('body') is not None]
+    if not fs:
+        raise AnalysisBroken('C05: RU_pairing::_remove_last not found')
+    f = fs[0]
+
+    def cl(x):
+        if ir.is_call(x) and ir.call_name(x) == 'erase' and ir.call_receiver(x) is not None and \
+                ir.show(ir.call_receiver(x)).replace('this->', '') == 'indexToBar_':
+            return ['ERASE']
+        if ir.is_call(x) and ir.call_name(x) == 'find' and ir.call_receiver(x) is not None and \
+                ir.show(ir.call_receiver(x)).replace('this->', '') == 'indexToBar_':
+            return ['FIND']
+        return []
+    ps = [p_ for p_ in paths.enumerate_paths(f, cl, loop_mode='01', keep_conds=True, cap=20000)
+          if paths.consistent_constexpr(p_)]
+    with_find = [p_ for p_ in ps if 'FIND' in p_.tags() and p_.end != 'throw']
+    if not with_find:
+        raise AnalysisBroken('C05: RU_pairing::_remove_last no longer looks the bar up in indexToBar_')
+    bad = [p_ for p_ in with_find if 'ERASE' not in p_.tags()]
+    chk.ob('E2n-bar-entry', 'RU_pairing::_remove_last erases the dictionary entry of the removed position on every path '
+           'that found it (%d paths)' % len(with_find), '%s:%d' % (rel(f['file']), f['line']), not bad,
+           '' if not bad else 'a path [decisions: %s] leaves the entry: the next cell inserted at that position keeps '
+           'the stale bar (try_emplace) and its death closes the wrong interval' % '; '.join(
+               ('' if pol else '!') + ir.show(c)[:40] for c, pol, _ in bad[0].conds if not isinstance(c, tuple))[:160],
+           key='E2n|RU_pairing::_remove_last|bar-entry')
 
 
 # ------------------------------------------------------------------ E2n a freed position leaves the bar dictionary
